@@ -41,6 +41,9 @@ def rule_K3_M1(ctx, F):
             for c, tr in gs:
                 if isinstance(c, tuple) and c[0] == "switchval":
                     arms[variants[tr]] = e
+                elif isinstance(c, tuple) and c[0] == "switchin":      # `SSE2 | SSE41 => 4`
+                    for tv in tr:
+                        arms[variants[tv]] = e
     if len(variants) == 1 and dl:
         arms[variants[0]] = val(sd.expr_local(dl[0]))
     for v in variants:
